@@ -11,9 +11,9 @@ DECIDES = ('the value reaching lru_cache(maxsize=...) is an int for every value 
            'direction (AG4, AX1); every geometry constructor and the evaluator setter hand the object\'s span function to the evaluator (SP1); '
            'all 8 evaluator classes implement evaluate/derivatives with the common signature and read only keys the matching data '
            'property produces (EV1, AG3); every rational evaluator forwards all of its arguments, **kwargs included, to the same method of its parent (EV2); every `_kv_normalize` guard only adds a [0,1] range check or applies knotvector.normalize to the '
-           'stored value (NK1); evaluation start/stop defaults are the domain ends of the same direction (DOM1); serial and parallel branches '
+           'stored value (NK1); evaluation start/stop defaults are the domain ends of the same direction (DOM1 where spelled as keyword defaults; DOM2: the evaluator receives knot[degree] / knot[-(degree+1)] of every direction, decided by interpreting evaluate() on an abstract object with labelled knots); serial and parallel branches '
            'apply the same worker to the same arguments through the order-preserving Pool.map, results consumed in order (AG5); a '
-           'sample-size setter/getter pair depends on the same state (UD1). the delta a container derives from a requested sample size is read back as that sample size by its elements (UD2, composition of the two formulas in rational normal form).')
+           'sample-size setter/getter pair depends on the same state (UD1). the delta a container derives from a requested sample size is read back as that sample size by its elements (UD2, composition of the two formulas in rational normal form). [SKEL, abstract object] interpreted on an object created with normalize_kv=False, the named methods never reach utilities.check_params and hand the request on to the evaluator / operation (RG2: spelling-independent form of RG1).')
 NOT_DECIDED = 'numerical equality of results across configurations (span functions, evaluator variants, normalised vs raw knot ranges); pickling of workers; process scheduling.'
 TECHNIQUE = 'static kind analysis, signature/key-set agreement, branch equivalence, axis tags'
 
@@ -39,6 +39,9 @@ def check(m, run):
     ev1_ag3(m, run)
     ev2(m, run)
     nk1(m, run)
+    from .. import ops_common as _oc
+    _oc.unit_range_rule(m, run, ('evaluate', 'evaluate_single', 'evaluate_list', 'derivatives', 'insert_knot', 'remove_knot'))
+    run.floor('RG2.no-unit-range-test-for-un-normalised-shapes', 15, 'six methods x three shape classes')
     dom1(m, run)
     ag5(m, run)
     ud1(m, run)
@@ -292,7 +295,7 @@ def dom1(m, run, rule='DOM1.domain-ends'):
             d = c.args[1]
             key = '%s :: default of %r' % (fi.key, kname)
             if not (isinstance(d, ast.Subscript) and isinstance(d.value, ast.Attribute) and d.value.attr.startswith('knotvector')):
-                run.ob(rule, key, False, 'default `%s` is not an element of a knot vector' % norm(d), site(fi, c))
+                run.note(rule, key, 'default `%s` is not spelled as an element of a knot vector attribute: decided by DOM2 only' % norm(d))
                 continue
             kv = d.value.attr
             ax_kw, ax_kv = suffix_axis(kname), suffix_axis(kv)
@@ -307,7 +310,10 @@ def dom1(m, run, rule='DOM1.domain-ends'):
             run.ob(rule, key, ok, '%s[%s]' % (kv, p) if ok else
                    'default %s parameter is %s[%s]; the %s of the domain in this direction is %s[%s]' % (which, kv, p, which, 'knotvector' + kname[len(which):], want),
                    site(fi, c))
-    run.floor(rule, 12, '2 + 4 + 6 start/stop defaults')
+    # the spelling-independent decision: what the evaluator actually receives when no range is given
+    from .. import skel_drivers as _sd
+    _sd.dom2(m, run)
+    run.floor('DOM2.evaluator-receives-the-domain-ends', 3, 'curve, surface, volume')
     # SplineGeometry.domain
     dm = m.cls('abstract', 'SplineGeometry').getters.get('domain')
     if dm is not None:
